@@ -33,7 +33,7 @@ macro "f_tac" : tactic => `(tactic| (
   (repeat' split at st)
   all_goals (first | (simp at st; done) | skip)
   all_goals (simp only [Option.some.injEq] at st; subst st)
-  all_goals (constructor <;> first | assumption | (simp only [upd, lockS, unlockS, newHelper, relocate, K.cont, List.append_assoc, List.cons_append, List.nil_append] at * <;>
+  all_goals (constructor <;> first | assumption | (simp only [upd, lockS, unlockS, newHelper, relocate, nestOn, csOn, nestOff, K.cont, List.append_assoc, List.cons_append, List.nil_append] at * <;>
     grind [upd, TOk, → cons_tail_of_head?]))))
 
 theorem invf_rlock (c : Cfg) {s s' : State} (hA : InvA c s) (h : InvF c s) (t : _)
